@@ -72,7 +72,7 @@ def run_subtree(item):
     scn, bound, base = item['scn'], item['bound'], item['base']
     oracle   = load(item['oracle'])
     deadline = item.get('deadline')
-    st = {'execs': 0, 'trans': 0, 'steps': 0, 'fps': set(), 'outcomes': set(), 'viol': [], 'capped': False,
+    st = {'execs': 0, 'trans': 0, 'steps': 0, 'fps': set(), 'outcomes': set(), 'wiretraces': set(), 'viol': [], 'capped': False,
           'sample': None, 'children': None, 'nondet': None, 'maxpts': 0, 'reasons': {}}
     stack = [list(item['prefix'])]
     first = True
@@ -102,6 +102,7 @@ def run_subtree(item):
         viols, okey = oracle(scn, res)
 
         st['outcomes'].add(okey)
+        st['wiretraces'].add(hash(tuple((w[0], w[1], w[2], w[3][:4]) for w in res.wire)))
 
         for v in viols:
             st['viol'].append({'signature': v['signature'], 'what': v['what'], 'choices': res.choices,
@@ -134,6 +135,7 @@ def run_subtree(item):
 
     st['fps'] = list(st['fps'])
     st['outcomes'] = list(st['outcomes'])
+    st['wiretraces'] = list(st['wiretraces'])
     st['scn_name'] = scn.get('name')
 
     return st
@@ -153,6 +155,7 @@ def explore(rep, part, scenarios, bound, bases, oracle, budget_s=None, split=Tru
     tot      = {'execs': 0, 'trans': 0, 'steps': 0, 'capped': False, 'maxpts': 0}
     fps      = set()
     outcomes = set()
+    wiretr   = set()
     viols    = {}
     items    = []
     reasons  = {}
@@ -165,6 +168,7 @@ def explore(rep, part, scenarios, bound, bases, oracle, budget_s=None, split=Tru
         tot['capped'] |= st['capped']
         fps.update(st['fps'])
         outcomes.update((st['scn_name'], o) for o in st['outcomes'])
+        wiretr.update((st['scn_name'], o) for o in st['wiretraces'])
 
         for k, v in st['reasons'].items():
             reasons[k] = reasons.get(k, 0) + v
@@ -198,8 +202,10 @@ def explore(rep, part, scenarios, bound, bases, oracle, budget_s=None, split=Tru
     rep.add('transitions', tot['trans'])
     rep.set('states', len(fps) + rep.coverage.get('states', 0))
     rep.add('distinct_outcomes', len(outcomes))
+    rep.add('distinct_timed_wire_traces', len(wiretr))
     rep.part(part, scenarios=len(scenarios), bases=list(bases), deviation_bound=bound, executions=tot['execs'],
              scheduler_actions=tot['trans'], distinct_state_fingerprints=len(fps), distinct_outcomes=len(outcomes),
+             distinct_timed_wire_traces=len(wiretr),
              max_choice_points=tot['maxpts'], stop_reasons=reasons, completed=not tot['capped'],
              wall_s=round(time.time() - t0, 1))
 
